@@ -10,7 +10,9 @@
      mw      the context made by CSSMiddleware.ServeHTTP for one request: the classes registered with the
              middleware (RegSeq) are recorded up front, the stylesheet endpoint serves their rules;
      fresh   an UNinitialised context.Background(): every top-level render initialises its own value,
-             so every use is its own context and nothing accumulates.
+             so every use is its own context and nothing accumulates;
+     winit   (not a creation mode) a fresh context after templ.WithNonce: getContext initialised it, from then
+             on it behaves like plain -- the usual nonce middleware in front of the handler.
 
    Actions = the use kinds, one per critical call of the code (each writes tokens to the document):
      RenderScriptComponent(s)       ComponentScript.Render: RenderScriptItems(s), then the inline call
@@ -21,6 +23,10 @@
      ElementWithClassAndOn(k,s)     both hoisted groups: css items, then script items, then the element
      OnceWithBlock(h) / OnceWithComponent(g)     once.go
      StylesheetRequest              CSSHandler.ServeHTTP
+     SetNonce(c)                    ctx = templ.WithNonce(ctx, nonce) at this point of the history (a nonce middleware
+                                    inside NewCSSMiddleware when it comes first in an mw context, a layout that sets
+                                    the nonce for an embedded widget when it comes part-way): runtime.go sets the
+                                    nonce field of the SAME context value, the registry is untouched.  Writes nothing.
 
    Document tokens: def(x) = function definition / CSS rule of x, use(x) = a call of script x or the class
    name of x on an element, body(h) = content of once handle h, unknown = the fixed unknown-type class name,
@@ -41,15 +47,17 @@ CONSTANTS Ctxs,          \* context names (a sequence, e.g. <<"c1","c2">>)
           OnSeqs,        \* script sequences used by ElementWithOnAttrs
           ClassExprs,    \* class expressions: [cont |-> container, items |-> Seq([f, k, b])]
           Repaired,      \* subset of {"KvCompName", "SliceKVRules"}
-          Variant,       \* "asCoded" | "sharedKeys" | "noRecord" | "packageState" | "mwInlines"
+          Variant,       \* "asCoded" | "sharedKeys" | "noRecord" | "packageState" | "mwInlines" | "nonceForgets"
+          MaxNonces,     \* how often WithNonce may be applied to one context
           MaxSteps,
           EmitEdges
 
 VARIABLES mode,     \* how each context was created
           emitted,  \* the code's registry per context (keys)
           defd,     \* ghost: the ids whose definition / once body really is in the context's document so far
+          nonce,    \* how many times WithNonce has been applied to the context (0 = no nonce; j = the j-th nonce value)
           n, lbl
-vars == <<mode, emitted, defd, n>>
+vars == <<mode, emitted, defd, nonce, n>>
 
 CtxSet == {Ctxs[j] : j \in 1..Len(Ctxs)}
 Reg == {RegSeq[j] : j \in 1..Len(RegSeq)}
@@ -112,12 +120,14 @@ Violations(toks, before, must, c) ==
 DefinedBy(toks) == {toks[j].x : j \in {i \in 1..Len(toks) : toks[i].t \in {"def", "body"}}}
 
 InitEm(m) == IF m = "mw" THEN KeysOf(RegSeq) ELSE {}
-IsInit == \A c \in CtxSet : emitted[c] = InitEm(mode[c])
-StateRec == [init |-> IsInit, ctx |-> [j \in 1..Len(Ctxs) |-> [m |-> mode[Ctxs[j]], em |-> emitted[Ctxs[j]], df |-> defd[Ctxs[j]]]]]
+IsInit == \A c \in CtxSet : emitted[c] = InitEm(mode[c]) /\ nonce[c] = 0
+StateRec == [init |-> IsInit, ctx |-> [j \in 1..Len(Ctxs) |-> [m |-> mode[Ctxs[j]], em |-> emitted[Ctxs[j]], df |-> defd[Ctxs[j]],
+                                                             nn |-> nonce[Ctxs[j]]]]]
 
 Init == /\ mode \in [CtxSet -> Modes]
         /\ emitted = [c \in CtxSet |-> InitEm(mode[c])]
         /\ defd = [c \in CtxSet |-> {}]
+        /\ nonce = [c \in CtxSet |-> 0]
         /\ n = 0
         /\ lbl = [a |-> "init"]
 
@@ -130,10 +140,10 @@ Use(c, name, args, toks, rec, must, tags) ==
                   THEN [d \in CtxSet |-> IF mode[d] = "fresh" THEN {} ELSE emitted[d] \cup rec]   \* registry in a package variable
                   ELSE [emitted EXCEPT ![c] = IF mode[c] = "fresh" THEN {} ELSE @ \cup rec]
     /\ defd' = [defd EXCEPT ![c] = IF mode[c] = "fresh" THEN {} ELSE @ \cup DefinedBy(toks)]
-    /\ UNCHANGED mode
+    /\ UNCHANGED <<mode, nonce>>
     /\ lbl' = [a |-> name, c |-> c, args |-> args, toks |-> toks, before |-> SetToSeq(before),
                must |-> SetToSeq(must), tags |-> SetToSeq(tags),
-               viol |-> SetToSeq(Violations(toks, before, must, c))]
+               viol |-> SetToSeq(Violations(toks, before, must, c)), nonce |-> nonce[c]]
 
 NoArgs == [s |-> "", S |-> <<>>, e |-> [cont |-> "", items |-> <<>>], k |-> "", h |-> ""]
 
@@ -166,9 +176,23 @@ Once(c, name, h) ==
 StylesheetRequest ==
     /\ \E c \in CtxSet : mode[c] = "mw"
     /\ n < MaxSteps /\ n' = n + 1
-    /\ UNCHANGED <<mode, emitted, defd>>
+    /\ UNCHANGED <<mode, emitted, defd, nonce>>
     /\ lbl' = [a |-> "StylesheetRequest", c |-> "", args |-> NoArgs, toks |-> [j \in 1..Len(RegSeq) |-> Tok("served", RegSeq[j])],
-               before |-> <<>>, must |-> <<>>, tags |-> <<>>, viol |-> <<>>]
+               before |-> <<>>, must |-> <<>>, tags |-> <<>>, viol |-> <<>>, nonce |-> 0]
+
+\* runtime.go: WithNonce -- getContext (initialises an uninitialised context), v.nonce = nonce on the context value the
+\* whole render shares: what has been emitted, what the document holds and what the middleware registered stay as they are.
+\* Variant "nonceForgets": WithNonce derives a context with a FRESH context value (children and nonce only), the
+\* registry of the context starts empty again although the document already holds the definitions.
+SetNonce(c) ==
+    /\ n < MaxSteps /\ n' = n + 1
+    /\ nonce[c] < MaxNonces
+    /\ nonce' = [nonce EXCEPT ![c] = @ + 1]
+    /\ mode' = [mode EXCEPT ![c] = IF @ = "fresh" THEN "winit" ELSE @]
+    /\ IF Variant = "nonceForgets" THEN emitted' = [emitted EXCEPT ![c] = {}] /\ UNCHANGED defd
+       ELSE UNCHANGED <<emitted, defd>>
+    /\ lbl' = [a |-> "SetNonce", c |-> c, args |-> NoArgs, toks |-> <<>>, before |-> SetToSeq(defd[c]),
+               must |-> <<>>, tags |-> <<>>, viol |-> <<>>, nonce |-> nonce[c] + 1]
 
 Next == \/ \E c \in CtxSet :
             \/ \E s \in Scripts : RenderScriptComponent(c, s)
@@ -177,17 +201,20 @@ Next == \/ \E c \in CtxSet :
             \/ \E k \in Classes, s \in Scripts : ElementWithClassAndOn(c, k, s)
             \/ \E h \in BlockHandles : Once(c, "OnceWithBlock", h)
             \/ \E h \in FixedHandles : Once(c, "OnceWithComponent", h)
+            \/ SetNonce(c)
         \/ StylesheetRequest
 
 Spec == Init /\ [][Next]_vars
 
 -----------------------------------------------------------------------------
 (* properties *)
-TypeOK == /\ mode \in [CtxSet -> Modes]
+TypeOK == /\ mode \in [CtxSet -> Modes \cup {"winit"}]
+          /\ nonce \in [CtxSet -> 0..MaxNonces]
+          /\ \A c \in CtxSet : mode[c] = "winit" => nonce[c] > 0
           /\ n \in 0..MaxSteps
 
 StepHas(v) == lbl'.a \notin {"init", "StylesheetRequest"} => v \notin {lbl'.viol[j] : j \in 1..Len(lbl'.viol)}
-allvars == <<mode, emitted, defd, n, lbl>>
+allvars == <<mode, emitted, defd, nonce, n, lbl>>
 AtMostOnce             == [][StepHas("AtMostOnce")]_allvars
 DefBeforeFirstUse      == [][StepHas("DefBeforeFirstUse")]_allvars
 EveryUseHasCallOrName  == [][StepHas("EveryUseHasCallOrName")]_allvars
@@ -198,12 +225,15 @@ StylesheetServesRegistered ==
 \* a use in one context neither reads nor changes the registry of another one
 ContextsIndependent ==
     [][lbl'.a \notin {"init", "StylesheetRequest"} => \A d \in CtxSet : d # lbl'.c => emitted'[d] = emitted[d] /\ defd'[d] = defd[d]]_allvars
+\* setting the nonce neither forgets nor adds anything: registry, document ghost and (hence) the classes the middleware
+\* registered are the same before and after, in every context
+NonceKeepsRegistry == [][lbl'.a = "SetNonce" => emitted' = emitted /\ defd' = defd]_allvars
 \* the registry of a context records exactly what its document defines (plus what the middleware registered)
 RegistryMatchesDocument == \A c \in CtxSet : emitted[c] = InitEm(mode[c]) \cup {Key(x) : x \in defd[c]}
 
 \* fail-closed attribution (emission configs, where the forms are as coded): a violating step went through a tagged branch
 ViolationsAreTagged == [][lbl'.a # "init" /\ lbl'.viol # <<>> => lbl'.tags # <<>>]_allvars
 
-View == <<mode, emitted, defd>>
+View == <<mode, emitted, defd, nonce>>
 Emit == IF EmitEdges THEN PrintT(<<"EDGE", ToJson([from |-> StateRec, lbl |-> lbl', to |-> StateRec'])>>) ELSE TRUE
 =============================================================================
